@@ -47,6 +47,22 @@ Imported(nm, o) == << [Node(o, 0, "def") EXCEPT !.k = o] @@ [name |-> nm],
 EmitImported == n = 1 => \A nm \in NameShapes \cup UpperShapes, o \in Outer :
                 PrintT(<<"CASE", ToJson([mods |-> << [tagdef |-> "AUTOMATIC", implied |-> FALSE], [tagdef |-> "EXPLICIT", implied |-> FALSE] >>,
                                          nodes |-> Imported(nm, o)])>>)
+\* object-class field types (X.681): the linker rebuilds every constructed type in which a fixed-type value field is named --
+\* the field type as component / alternative / element next to siblings whose shape must survive the rebuilding: a required
+\* and a DEFAULT component, an anonymous SET, an anonymous extensible CHOICE with an addition, and (for SEQUENCE / SET) an
+\* extension addition after the marker
+ClassHost(o, inner) ==
+    << [Node(o, 0, "def") EXCEPT !.marker = (o # "CHOICE")],
+       Node("CLASSFIELD", 1, RoleUnder(o)),
+       [Node("BOOLEAN", 1, RoleUnder(o)) EXCEPT !.opt = IF o = "CHOICE" THEN "req" ELSE "def"],
+       Node(inner, 1, RoleUnder(o)),
+       IF inner \in {"SEQOF", "SETOF"} THEN Node("CLASSFIELD", 4, "elem") ELSE Node("INTEGER", 4, RoleUnder(inner)),
+       [Node("CHOICE", 1, RoleUnder(o)) EXCEPT !.marker = TRUE],
+       Node("NULL", 6, "alt"),
+       [Node("BOOLEAN", 6, "alt") EXCEPT !.add = TRUE],
+       [Node("IA5String", 1, RoleUnder(o)) EXCEPT !.add = (o # "CHOICE"), !.opt = IF o = "CHOICE" THEN "req" ELSE "opt"] >>
+EmitClassHosts == n = 1 => \A o \in Outer, inner \in {"SET", "SEQUENCE", "SEQOF", "SETOF"} :
+                PrintT(<<"CASE", ToJson([mods |-> << [tagdef |-> "AUTOMATIC", implied |-> FALSE] >>, nodes |-> ClassHost(o, inner)])>>)
 Emit == \A o \in Outer, ch \in Chains(n), leaf \in Leaves :
            PrintT(<<"CASE", ToJson([mods |-> << [tagdef |-> "AUTOMATIC", implied |-> FALSE] >>, nodes |-> Table(o, ch, leaf)])>>)
 =============================================================================
